@@ -14,7 +14,8 @@ exactly len long, for every len in 0..=2*dense+7*lane+tail and byte alignments o
 0..63 in steps of align_of::<T>() (every alignment of slice a for every len; b and result at other alignments \
 that rotate with len; the thorough tier adds equal-alignment, mixed and permuted placements), \
 placed as close to the trailing PROT_NONE page as the alignment allows (hi), right after the leading one (lo), \
-plus the exact end-flush and start-flush placements; canary bytes wherever a guard page is not adjacent. \
+plus the exact end-flush and start-flush placements; also 15..33 dense blocks with every kind of remainder and the lengths \
+2047, 2049, 4099 at the two flush placements; canary bytes wherever a guard page is not adjacent. \
 Expected: no fault, canaries intact, inputs unchanged, returns within the watchdog (values arbitrary, for floats \
 including NaN, infinities and -0.0 at random positions; non-zero \
 integer divisors; a panic from integer arithmetic is not a C07 matter). distinct = hash set over (routine, len, \
@@ -96,6 +97,36 @@ fn one_target<T: Elem>(ctx: &mut Ctx, t: Target<T>) {
                 run.tally.note_len(len);
                 let (ar, opts) = (&mut run.ar, run.opts);
                 run.ctx.run_case(&c, len > 0, &mut |c| check_call(c, ar, opts));
+            }
+        }
+    }
+    // many dense blocks (loops that take several blocks per step, periodic folds): fifteen to thirty-three blocks with every
+    // kind of remainder, plus three lengths beyond any block-size threshold, flush against both guard pages
+    if t.r.dims.is_none() {
+        let dense = 8 * t.lane;
+        let mut longs: Vec<usize> = vec![2047, 2049, 4099];
+        for blocks in [15usize, 16, 17, 18, 19, 32, 33] {
+            for rem in [0usize, 1, t.lane, t.lane + 1, dense - 1] {
+                longs.push(blocks * dense + rem);
+            }
+        }
+        longs.sort_unstable();
+        longs.dedup();
+        let big = *longs.last().unwrap();
+        let long_a: Vec<T> = (0..big).map(|_| gen(&mut rng)).collect();
+        let long_b: Vec<T> = (0..big).map(|_| gen(&mut rng)).collect();
+        for &len in &longs {
+            if run.ctx.out_of_time() {
+                break;
+            }
+            for place in [[Place::End; 3], [Place::Start; 3]] {
+                let mut c: VecCall<T> =
+                    t.call().with_data(value, long_a[..len].to_vec(), if two { long_b[..len].to_vec() } else { Vec::new() });
+                c.place = place;
+                c.salt = place_salt(&place);
+                run.tally.note_len(len);
+                let (ar, opts) = (&mut run.ar, run.opts);
+                run.ctx.run_case(&c, true, &mut |c| check_call(c, ar, opts));
             }
         }
     }
